@@ -67,17 +67,34 @@ func runC01(s *simrt.Sim) {
 				if len(downs) > 0 && tp.Chance(2, 3, "recover") {
 					b = downs[tp.Draw(len(downs), "recover_which")] // a health-check style recovery
 				}
-				b.Up = !b.Up
-				for _, rb := range brr.VerifBackends() {
-					if rb.AddrInfo == b.AddrInfo() {
-						if b.Up && tp.Chance(3, 4, "restart_mark") {
-							rb.SetRestart(true) // the health checker marks a recovered backend for slow start
-							s.Probe("restart_mark")
+				flip := func(b *mBackend) {
+					b.Up = !b.Up
+					for _, rb := range brr.VerifBackends() {
+						if rb.AddrInfo == b.AddrInfo() {
+							if b.Up && tp.Chance(3, 4, "restart_mark") {
+								rb.SetRestart(true) // the health checker marks a recovered backend for slow start
+								s.Probe("restart_mark")
+							}
+							rb.SetAvail(b.Up)
 						}
-						rb.SetAvail(b.Up)
+					}
+					s.Fault("avail_flip")
+				}
+				flip(b)
+				// between two selections more than one backend may change: one
+				// comes back while another goes away (same number available)
+				if tp.Chance(1, 2, "swap") {
+					var others []*mBackend
+					for _, x := range sub.Backends {
+						if x != b && x.Up == b.Up {
+							others = append(others, x)
+						}
+					}
+					if len(others) > 0 {
+						flip(others[tp.Draw(len(others), "swap_which")])
+						s.Probe("avail_swap")
 					}
 				}
-				s.Fault("avail_flip")
 			case 1: // reload with changed weights
 				kind = "after_reload_weights"
 				k := tp.Range(1, len(sub.Backends), "n_changed")
@@ -147,8 +164,29 @@ func runC01(s *simrt.Sim) {
 			want[b.AddrInfo()] = b.Weight
 		}
 		picks := 3 * W
+		reloadAt := -1
+		if !nofault {
+			// stop anywhere in a round, so that the next change does not always
+			// meet the neutral credits of a finished round
+			picks += tp.Draw(W, "extra_picks")
+			if tp.Chance(1, 2, "identical_reload") {
+				reloadAt = tp.Draw(picks, "identical_reload_at")
+			}
+		}
 		seq := make([]string, 0, picks)
 		for i := 0; i < picks; i++ {
+			if i == reloadAt {
+				// a reload that changes nothing for this sub-cluster (another
+				// cluster of the file changed): backends and weights stay as they
+				// are, so the windows run on across it
+				c2, err := subConf(sub, nil)
+				if err != nil {
+					s.Fail("C01.load", "loader rejected identical reload: %v", err)
+					return
+				}
+				brr.Update(c2)
+				s.Fault("reload_identical")
+			}
 			b, err := brr.Balance(bal_slb.WrrSmooth, nil)
 			if err != nil {
 				s.FailK("C01.error", kind+"/error-with-eligible", "%s: Balance failed with %d eligible backends: %v", kind, len(el), err)
